@@ -57,9 +57,17 @@ package hub
 //@   ensures forall j: string :: $Trusted[j] == old($Trusted[j])
 //@   modifies h.remoteServices[@K()]
 
-//@ func (h *Hub).HandleShipHandshakeStateUpdate(ski, state) entry [C01]
+// C18: a changed pairing state is stored as a new detail object, and exactly that object is handed to the goroutine
+// that reports it after the delay (N1); the goroutine reports it only if it is still the stored one when the delay
+// is over (N2) - a newer state's own report follows, the older one must not arrive after it; the operations that
+// report at once hand over the stored object itself, whose contents they have just updated in place (N3); a
+// replaced object is never stored again (api: N4). Hence reports of different objects reach the application in the
+// order the objects were stored, and what the last report shows is what PairingDetailForSki returns (C15-P2).
+//@ func (h *Hub).HandleShipHandshakeStateUpdate(ski, state) entry [C01,C18]
 //@   implements api.ShipConnectionInfoProviderInterface.HandleShipHandshakeStateUpdate
 //@   requires @HUBINV(h)
+//@   ensures [C18] N1-stored: state.Error == nil ==> h.remoteServices[@K()].connectionStateDetail.state == mapState(state.State)
+//@   atcall HandleShipHandshakeStateUpdate$1 [C18] N1-own: $cap_pairingDetail == $cap_service.connectionStateDetail && $cap_service == h.remoteServices[@K()] && $cap_ski == ski && $cap_pairingDetail.state == ite(state.Error == nil, mapState(state.State), $cap_pairingDetail.state)
 //@   ensures [C01] G5-trust: forall j: string :: $Trusted[j] == (old($Trusted[j]) || (j == @K() && state.State == model.SmeHelloStateOk))
 //@   ensures @RSFRAME(h) && @HUBINV(h)
 //@   modifies *
@@ -71,6 +79,7 @@ package hub
 //@   ensures [C15] R3-approve: old(h.hasStarted) && @K() in old(h.connections) ==> old(h.connections[@K()]).$approveCalls == old(h.connections[@K()].$approveCalls) + 1
 //@   ensures [C15] R4-queued: old(h.hasStarted) && !(@K() in old(h.connections)) ==> h.remoteServices[@K()].connectionStateDetail.state == api.ConnectionStateQueued
 //@   atcall ServicePairingDetailUpdate [C15] R5-callback: $0 == @K()
+//@   atcall ServicePairingDetailUpdate [C18] N3-stored: @K() in h.remoteServices && $1 == h.remoteServices[@K()].connectionStateDetail
 //@   modifies *
 
 //@ func (h *Hub).UnregisterRemoteSKI(ski) entry [C15,C10]
@@ -79,6 +88,7 @@ package hub
 //@   ensures [C15] U1-closed: @K() in old(h.connections) ==> old(h.connections[@K()]).$closeCalls == old(h.connections[@K()].$closeCalls) + 1 && old(h.connections[@K()]).$lastSafe && old(h.connections[@K()]).$lastCode == 4500
 //@   ensures [C15] U2-others: @RSFRAME(h) && (forall j: string :: j != @K() ==> $Trusted[j] == old($Trusted[j]))
 //@   atcall ServicePairingDetailUpdate [C15] U3-callback: $0 == @K()
+//@   atcall ServicePairingDetailUpdate [C18] N3-stored: @K() in h.remoteServices && $1 == h.remoteServices[@K()].connectionStateDetail
 //@   modifies *
 
 //@ func (h *Hub).DisconnectSKI(ski, reason) entry [C15]
@@ -91,11 +101,12 @@ package hub
 //@   ensures [C10,C15] D3-counter: !(@K() in h.connectionAttemptCounter)
 //@   ensures [C15] C2-others: @RSFRAME(h) && (forall j: string :: j != @K() ==> $Trusted[j] == old($Trusted[j]))
 //@   atcall ServicePairingDetailUpdate [C15] C3-callback: $0 == @K()
+//@   atcall ServicePairingDetailUpdate [C18] N3-stored: @K() in h.remoteServices && $1 == h.remoteServices[@K()].connectionStateDetail
 //@   modifies *
 
-//@ func (h *Hub).PairingDetailForSki(ski) entry [C15]
-//@   ensures [C15] P1-connected: @K() in h.connections ==> result != nil && result.state == mapState(h.connections[@K()].$hsState)
-//@   ensures [C15] P2-stored: !(@K() in h.connections) ==> result == h.remoteServices[@K()].connectionStateDetail
+//@ func (h *Hub).PairingDetailForSki(ski) entry [C15,C18]
+//@   ensures [C15,C18] P1-connected: @K() in h.connections ==> result != nil && result.state == mapState(h.connections[@K()].$hsState)
+//@   ensures [C15,C18] P2-stored: !(@K() in h.connections) ==> result == h.remoteServices[@K()].connectionStateDetail
 //@   ensures @RSFRAME(h)
 //@   modifies h.remoteServices[@K()]
 
@@ -172,7 +183,8 @@ package hub
 
 //@ macro PEER() := r.TLS.PeerCertificates[0]
 // crypto/tls hands over non-nil certificates (assumed)
-//@ func (h *Hub).ServeHTTP(w, r) entry [C02,C09,C08]
+//@ func (h *Hub).ServeHTTP(w, r) entry [C02,C09,C08,C18]
+//@   atcall ServicePairingDetailUpdate [C18] N3-stored: norm($0) in h.remoteServices && $1 == h.remoteServices[norm($0)].connectionStateDetail
 //@   requires r != nil && (r.TLS != nil && len(r.TLS.PeerCertificates) > 0 ==> r.TLS.PeerCertificates[0] != nil)
 //@   atcall NewConnectionHandler [C02,C01] I1-cert: r.TLS != nil && len(r.TLS.PeerCertificates) > 0 && @PEER() != nil && len(@PEER().SubjectKeyId) == 20
 //@   atcall NewConnectionHandler [C02,C01] I2-ski: $4 == norm(hex(@PEER().SubjectKeyId))
@@ -259,8 +271,12 @@ package hub
 //@   ensures [C09] P6-forwarded: $appIdReports[ski] == old($appIdReports[ski]) + 1 && $appLastId[ski] == shipdID
 //@   modifies $appIdReports[ski], $appLastId[ski]
 // the delayed pairing-detail report: a goroutine body of its own (every `go` callee needs a contract)
-//@ closure (h *Hub).HandleShipHandshakeStateUpdate$1 [C08]
-//@   requires @HUBINV(h)
+// while the goroutine waits other goroutines run: the service's stored detail is havoc'd at the blocking receive
+//@ closure (h *Hub).HandleShipHandshakeStateUpdate$1 [C08,C18]
+//@   requires @HUBINV(h) && service != nil && pairingDetail != nil
+//@   interference service: service.connectionStateDetail
+//@   atcall ServicePairingDetailUpdate [C18] N2-current: $1 == pairingDetail && service.connectionStateDetail == pairingDetail && $0 == ski
+//@   ensures [C18] N2-once: callcount(ServicePairingDetailUpdate) <= 1
 //@ closure (h *Hub).coordinateConnectionInitations$1
 //@   requires @HUBINV(h) && entry != nil
 // the delay table has entries and every range is non-empty: established by the package initialiser (verified),
